@@ -523,6 +523,20 @@ def run(ctx):
         plain += [t.id for st in ci.node.body if isinstance(st, ast.Assign) for t in st.targets if isinstance(t, ast.Name) and not (t.id.startswith("__") and t.id.endswith("__"))]
         ctx.ob("C11.R5", cname, not plain, "%s defines only double-underscore names, so no field name is shadowed (found %s): this.%s would stop being a path expression" % (cname, plain, plain[0] if plain else "x"),
                key="%s namespace" % cname, loc=EXPR)
+    # an expression handed to a construct is rendered into generated code with repr (which C11.R4 shows to evaluate like the expression); str()
+    # prints string operands unquoted (shared with C04.R1)
+    borrowed = 0
+    if not getattr(ctx.model, "_c04_running", False):          # C04 itself borrows C11 (R6): no borrowing back while it runs
+        from . import C04 as _C04
+        sub4 = shared_run(ctx, _C04, prop="C04")
+        for e_ in sub4.errors:
+            ctx.error("shared C04 rules: " + e_)
+        for o_ in sub4.obligations:
+            if o_.rule == "C04.R1":
+                borrowed += 1
+                ctx.ob("C11.R5", o_.where, o_.ok, o_.what, key=o_.key, loc=o_.loc, detail=o_.detail)
+        if borrowed < 25:
+            ctx.error("C11.R5: only %d repr-discipline obligations borrowed from C04.R1, floor 25" % borrowed)
     ctx.floor("C11.R5", 17)
 
     # positive control: the grammar oracle must notice a dropped parenthesis
